@@ -239,6 +239,11 @@ def units(tier):
             U.append(Unit('%s[max_imfs %s]' % (q, 'given' if given else 'default'), SIFT, q, mk_sl(kind, given),
                           lambda c, a, kw, r, exp=exp: c.oblige('post:samples-by-first-level-by-max_imfs', z3.And(r.shape_e[0] == T, r.shape_e[1] == 3, r.shape_e[2] == exp), 'post'),
                           module=ES, inline=inl, wrap_call=call_sl))
+    # the shape normalisation every sift variant starts with (a vector with any number of trailing singleton dimensions becomes [N x 1],
+    # anything else is rejected): the units of C19, re-run here because "a [samples x components] result for every documented input layout"
+    # rests on them
+    from contracts import C19
+    U += [u for u in C19.validator_units(tier) if u.name.startswith('ensure_1d_with_singleton[')]
     return U
 
 
@@ -315,6 +320,23 @@ def replay(w):
                 comp, _ = S.get_next_imf(resid)
                 if not np.allclose(comp[:, 0], imf[:, k], rtol=1e-12, atol=1e-12):
                     return True, 'component %d of sift is not get_next_imf applied to the input minus the first %d components (max diff %.3g)' % (k, k, np.abs(comp[:, 0] - imf[:, k]).max())
+            return False, 'ok'
+        if kind == 'shape':
+            # the documented vector layouts (any number of trailing singleton dimensions): same components as for the plain vector
+            shp = (len(x),) + (1,) * w['extra_dims']
+            f = {'sift': S.sift, 'mask_sift': lambda v, **k_: S.mask_sift(v, mask_freqs=[0.3, 0.15, 0.08, 0.04, 0.02], **k_)}[w['variant']]
+            capkw = {} if w.get('cap') is None else {'max_imfs': w['cap']}
+            try:
+                ref = f(x.copy(), **capkw)
+            except emd.support.EMDSiftCovergeError:
+                return False, 'convergence error (C04)'
+            try:
+                got = f(x.reshape(shp).copy(), **capkw)
+            except Exception as ex:
+                return True, '%s on the vector stored with shape %s (max_imfs=%s) raised %s: %s' % (w['variant'], shp, w.get('cap'), type(ex).__name__, str(ex)[:120])
+            if got.shape != ref.shape or not np.array_equal(got, ref):
+                return True, '%s on the vector stored with shape %s returns shape %s, for the plain vector %s (max diff %s)' % (
+                    w['variant'], shp, got.shape, ref.shape, np.abs(got - ref).max() if got.shape == ref.shape else 'n/a')
             return False, 'ok'
         if kind == 'peel_opts':
             # manual peeling under a NON-DEFAULT option set: component k = (masked) single-IMF extraction, with the same options, of the
@@ -411,6 +433,18 @@ def refute(tier, seed, emit):
                     ok, msg = replay(w)
                     if ok:
                         emit.violation('kth-component-is-extraction-from-residual:%s-input' % dt, w, msg)
+        if emit.full:
+            return
+    emit.scope('%d signals stored as [N x 1], [N x 1 x 1], [N x 1 x 1 x 1], [N x 1 x 1 x 1 x 1] x {sift, mask_sift} x caps {None, 1, 2, 4}: the same [samples x components] result as for the plain vector' % min(nsig, 2))
+    for si in range(min(nsig, 2)):
+        for extra_dims in (1, 2, 3, 4):
+            for variant in ('sift', 'mask_sift'):
+                for cap in (None, 1, 2, 4):
+                    emit.case(('shape', si, extra_dims, variant, cap), nontrivial=extra_dims >= 2, contract=variant)
+                    w = {'kind': 'shape', 'sig': si, 'extra_dims': extra_dims, 'variant': variant, 'cap': cap}
+                    ok, msg = replay(w)
+                    if ok:
+                        emit.violation('documented-vector-layouts:%s' % variant, w, msg)
         if emit.full:
             return
     OPTSETS = [{'extrema_opts': {'pad_width': 3, 'parabolic_extrema': True}},
